@@ -38,6 +38,13 @@ func c07Fixed(c *mc.Ctx) {
 		wraps = 3
 	}
 	s := rtp.NewFixedSequencer(uint16(start))
+	// for odd start values a second sequencer is used alternately: the two must not influence
+	// each other
+	var other rtp.Sequencer
+	otherWant := uint16(start) ^ 0x8000
+	if start%2 == 1 {
+		other = rtp.NewFixedSequencer(otherWant)
+	}
 	calls := (65536-start)%65536 + 3 + (wraps-1)*65536
 	if start == 0 {
 		calls = 3 + wraps*65536
@@ -45,6 +52,12 @@ func c07Fixed(c *mc.Ctx) {
 	want := uint16(start)
 	zeros := uint64(0)
 	for i := 0; i < calls; i++ {
+		if other != nil {
+			if ov := other.NextSequenceNumber(); ov != otherWant {
+				c.Failf("successor", "second sequencer NewFixedSequencer(%d) used alternately: call %d returned %d, want %d", uint16(start)^0x8000, i+1, ov, otherWant)
+			}
+			otherWant++
+		}
 		v := s.NextSequenceNumber()
 		if v != want {
 			c.Failf("successor", "NewFixedSequencer(%d): call %d returned %d, want %d", start, i+1, v, want)
